@@ -270,6 +270,8 @@ type plan struct {
 	link        simnet.LinkMode
 	latency     bool
 	bigProtos   bool // observer's peerstore accepts > 128 protocols
+	late        bool // template "message consumed after the last disconnect" (see drawPlan)
+	perPeer     int  // observer's peerstore is built with pstoremem.WithMaxAddressesPerPeer(perPeer)
 	muteObsPush bool // byz never answers multistream-select on the streams the observer opens after its identify request (the observer's own pushes) and keeps them open
 	rsaByz      bool // byz's identity is an RSA key: its peer ID does not embed the public key
 	wipe        bool // rsaByz only: the application forgets byz (Peerstore.RemovePeer) before the action phase, so the
@@ -285,7 +287,7 @@ type plan struct {
 	finalObs bool // final closes by the observer
 }
 
-func drawSend(g simrt.Gen, w *world, idx *int, push bool) sendPlan {
+func drawSend(g simrt.Gen, w *world, idx *int, push bool, over int) sendPlan {
 	var s sendPlan
 	if push {
 		s.mode = g.Weighted(12, 1, 1, 1, 1, 1, 1, 1, 0, 1)
@@ -296,7 +298,7 @@ func drawSend(g simrt.Gen, w *world, idx *int, push bool) sendPlan {
 		s.delay = delays[g.Int(len(delays))]
 	}
 	s.coalesce = g.Bool()
-	s.msg = genMessage(g, w, *idx)
+	s.msg = genMessage(g, w, *idx, over)
 	*idx++
 	return s
 }
@@ -307,6 +309,7 @@ func drawPlan(g simrt.Gen) (*plan, *world) {
 	p.link = []simnet.LinkMode{simnet.Whole, simnet.Fragment}[g.Weighted(2, 1)]
 	p.latency = g.Chance(1, 3)
 	p.bigProtos = g.Bool()
+	p.perPeer = []int{64, 32, 100}[g.Weighted(3, 1, 1)]
 	p.slow = []int{0, 10, 40, 150}[g.Weighted(3, 2, 2, 1)]
 	p.byzIP = []string{"10.0.1.2", "44.1.1.2"}[g.Weighted(3, 1)]
 	p.pre = g.Weighted(2, 2, 1)
@@ -324,7 +327,7 @@ func drawPlan(g simrt.Gen) (*plan, *world) {
 				p.pre = 1 // the observer needs an address to dial
 			}
 		}
-		c.resp = drawSend(g, w, &midx, false)
+		c.resp = drawSend(g, w, &midx, false, 0)
 		c.gap = g.Weighted(2, 3, 1)
 		p.conns = append(p.conns, c)
 	}
@@ -351,7 +354,7 @@ func drawPlan(g simrt.Gen) (*plan, *world) {
 		if a.kind == actPush {
 			pushes++
 			lastPushConn = a.conn
-			a.send = drawSend(g, w, &midx, true)
+			a.send = drawSend(g, w, &midx, true, 0)
 		}
 		switch g.Weighted(2, 4, 3) {
 		case 2:
@@ -375,6 +378,28 @@ func drawPlan(g simrt.Gen) (*plan, *world) {
 		}
 		a.yields = g.Weighted(4, 1, 1, 1) * g.Range(1, 20)
 		p.acts = append(p.acts, a)
+	}
+	// "consumed after the last disconnect" template (1/6 of the runs): one connection; a plain message whose USED
+	// address list has a size around the caps, as push or as the identify response; the close of the connection starts
+	// when consumeMessage makes its first peerstore call (GetProtocols), which is held back long enough for the swarm
+	// to drop the connection and for Disconnected to run: the message is then consumed for a peer without connection.
+	if g.Chance(1, 6) {
+		p.late = true
+		over := []int{65, 100, 499, 500, 700, 60, 64}[g.Int(7)]
+		p.conns = p.conns[:1]
+		cl := actPlan{kind: []int{actClose, actCloseAll}[g.Int(2)], byObs: g.Bool()}
+		cl.trig = trigPlan{ps: true, j: 1, hold: []int{1200, 2500}[g.Int(2)]}
+		if g.Bool() {
+			p.overlap = false
+			pu := actPlan{kind: actPush, send: drawSend(g, w, &midx, true, over)}
+			pu.send.mode = modeRespond
+			p.acts = []actPlan{pu, cl}
+		} else {
+			p.conns[0].resp = drawSend(g, w, &midx, false, over)
+			p.conns[0].resp.mode = modeRespond
+			cl.trig.creation = true
+			p.acts = []actPlan{cl}
+		}
 	}
 	p.longAdv = g.Chance(1, 8)
 	p.trim = g.Bool()
@@ -911,7 +936,7 @@ func run(t *testing.T, tape *simrt.Tape) *common.Outcome {
 	o := &common.Outcome{}
 	pl, w := drawPlan(g)
 	x := &exec{o: o, w: w, pl: pl, completed: map[string]int{}}
-	o.Logf("security=%s link=%d latency=%v bigProtos=%v slowPeerstore=%d muteObserverPushes=%v rsaByz=%v wipe=%v byzIP=%s pre=%d overlap=%v longAdvance=%v trim=%v finalByObserver=%v", pl.sec, pl.link, pl.latency, pl.bigProtos, pl.slow, pl.muteObsPush, pl.rsaByz, pl.wipe, pl.byzIP, pl.pre, pl.overlap, pl.longAdv, pl.trim, pl.finalObs)
+	o.Logf("security=%s link=%d latency=%v bigProtos=%v addrsPerPeer=%d lateTemplate=%v slowPeerstore=%d muteObserverPushes=%v rsaByz=%v wipe=%v byzIP=%s pre=%d overlap=%v longAdvance=%v trim=%v finalByObserver=%v", pl.sec, pl.link, pl.latency, pl.bigProtos, pl.perPeer, pl.late, pl.slow, pl.muteObsPush, pl.rsaByz, pl.wipe, pl.byzIP, pl.pre, pl.overlap, pl.longAdv, pl.trim, pl.finalObs)
 	for i, c := range pl.conns {
 		dir := "byz dials"
 		if c.outbound {
@@ -996,6 +1021,7 @@ func (x *exec) main(tape *simrt.Tape) {
 	if pl.bigProtos {
 		popts = append(popts, pstoremem.WithMaxProtocols(1<<20))
 	}
+	popts = append(popts, pstoremem.WithMaxAddressesPerPeer(pl.perPeer))
 	realPS, err := pstoremem.NewPeerstore(popts...)
 	if err != nil {
 		o.Trouble = err.Error()
@@ -1527,10 +1553,48 @@ func (x *exec) checkByz(when string, afterQuiescentLastClose bool) {
 	if extra > 400 {
 		o.Probe("more-than-400-addrs-stored")
 	}
+	// The address book's documented per-peer cap on addresses that no live connection holds
+	// (pstoremem.WithMaxAddressesPerPeer: "caps the unconnected addresses stored per peer ... Addresses held by a live
+	// connection (TTL >= ConnectedAddrTTL) bypass the cap"). The number is the one THIS harness configured through
+	// that option, not a constant read out of the implementation. At a quiescent instant at which the observer lists
+	// no connection to byz, everything stored for byz except what the harness inserted with PermanentAddrTTL is
+	// "unconnected" (anything else is reported by addr-kept-after-disconnect), so their number is bounded by the cap.
+	if notPerm := len(s.addrs) - x.countPresent(s.addrs, x.prePerm); len(x.O.Swarm.ConnsToPeer(w.byz.id)) == 0 {
+		o.Probe("unconnected-cap-checked")
+		if notPerm > x.pl.perPeer {
+			// discriminator: how many messages with more addresses than the cap were (at least partly) written in this
+			// run. With one, the entry can only have crossed the cap inside ONE batch of one consumeMessage; with
+			// two or more, an entry that was legally larger than the cap while connected may have been carried over.
+			big := 0
+			for _, sr := range x.sends {
+				if sr.wrote && len(sr.msg.vouched) > x.pl.perPeer {
+					big++
+				}
+			}
+			disc := "after-oversized-entry"
+			if big <= 1 {
+				disc = "single-batch"
+			}
+			o.Violate("C13/unconnected-address-cap/"+disc, "%s: the observer has no connection to byz and keeps %d addresses for it that no connection holds; the address book was built with WithMaxAddressesPerPeer(%d) (sends: %s)", when, notPerm, x.pl.perPeer, x.sendSummary())
+		}
+		if notPerm > 20 {
+			o.Probe("more-than-20-addrs-kept-for-disconnected-peer")
+		}
+	}
 	if afterQuiescentLastClose && extra > capAddrsRecentlyConn {
 		o.Violate("C13/address-cap-after-disconnect", "%s: %d addresses kept for byz after the last connection closed at quiescence (documented: %d)", when, extra, capAddrsRecentlyConn)
 	}
 	x.logf("  %s: byz entry: %d addrs (%d beyond pre-existing) %d protocols agent=%.20q keys=%v", when, len(s.addrs), extra, len(s.protos), s.agent, s.inKeys)
+}
+
+func (x *exec) countPresent(addrs []string, set map[string]bool) int {
+	n := 0
+	for _, a := range addrs {
+		if set[a] {
+			n++
+		}
+	}
+	return n
 }
 
 func (x *exec) sendSummary() string {
